@@ -1,7 +1,7 @@
 // gengo — the translator: regenerates the table-like and straight-line parts
 // of the Coq model from /repo's current source.
 //
-//   gengo -repo /repo -out /verif/coq/gen
+//	gengo -repo /repo -out /verif/coq/gen
 //
 // writes Tables.v (constants and maps of interface.go, constant blocks of
 // hsms/parser.go and ast/hsms.go), Ctrl.v (the eight control-message
